@@ -660,6 +660,26 @@ def call_builtin(interp, name, args, kwargs, lineno, fr):
             if e.exc == 'AttributeError' and len(args) > 2:
                 return args[2]
             raise
+    if name in ('all', 'any') and len(args) == 1 and not kwargs:
+        # python's builtins over a concrete sequence (a generator expression is evaluated to a list by the interpreter)
+        seq = args[0]
+        if is_arraylike(seq):
+            return call_np(interp, name, [seq], {}, lineno)
+        if not isinstance(seq, (list, tuple)):
+            raise AnalysisError(f"builtin {name} over {type(seq).__name__}")
+        acc = ONE
+        for x in seq:
+            c = interp.truth(x)
+            if isinstance(c, bool):
+                if name == 'any' and c:
+                    return True
+                if name == 'all' and not c:
+                    return False
+                continue
+            acc = acc * ((1 - c) if name == 'any' else c)
+        if acc.is_const():
+            return name == 'all'
+        return (1 - acc) if name == 'any' else acc
     if name == 'slice':
         if len(args) == 1:
             return A.Sl(None, args[0])
@@ -674,7 +694,16 @@ def call_builtin(interp, name, args, kwargs, lineno, fr):
         return set()
     if name == 'deepcopy':
         m = args[1] if len(args) > 1 else kwargs.get('memo')
-        return deep_copy(args[0], m if isinstance(m, dict) else {})
+        _DEEPCOPY_INTERP.append(interp)
+        try:
+            return deep_copy(args[0], m if isinstance(m, dict) else {})
+        finally:
+            _DEEPCOPY_INTERP.pop()
+    if name == 'copy' and len(args) == 1:
+        return shallow_copy(interp, args[0])
+    if name == 'setattr' and len(args) == 3:
+        interp.set_attr(args[0], str(args[1]), args[2], lineno)
+        return None
     if name == 'csr_array':
         return csr_array(interp, args, kwargs, lineno)
     if name == 'spsolve':
@@ -782,6 +811,33 @@ def _issub(sm, a, b):
     raise AnalysisError(f"issubclass({a!r}, {b!r})")
 
 
+_DEEPCOPY_INTERP = []          # the interpreter running the current deepcopy (for user-defined __deepcopy__ / __copy__)
+
+
+def shallow_copy(interp, x):
+    """copy.copy: a new object of the same class whose attributes are the very same objects; arrays get new storage"""
+    from .interp import AObj
+    if isinstance(x, AObj):
+        cp = interp.sm.find_method(x.cls, '__copy__') if interp.sm.has_cls(x.cls) else None
+        if cp is not None:
+            return interp.call_function(cp, [x], self_obj=x)
+        n = AObj(x.cls)
+        n.attrs.update(x.attrs)
+        return n
+    if isinstance(x, Box):
+        b = Box(x.cur)
+        b.attrs = dict(x.attrs)
+        b.attrs.pop('shares', None)
+        return b
+    if isinstance(x, View):
+        return Box(x.snap())
+    if isinstance(x, list):
+        return list(x)
+    if isinstance(x, dict):
+        return dict(x)
+    return x
+
+
 def deep_copy(x, memo):
     """copy.deepcopy.  `memo` maps identities of originals to their copies; a dictionary handed in by the analysed code
     (deepcopy(x, memo)) is used as python uses it - keyed by id(original), consulted before copying and filled while copying -
@@ -795,6 +851,14 @@ def deep_copy(x, memo):
             return memo[x.id]
         if key(x) in memo:
             return memo[key(x)]
+        it = _DEEPCOPY_INTERP[0] if _DEEPCOPY_INTERP else None
+        if it is not None and it.sm.has_cls(x.cls):
+            dc = it.sm.find_method(x.cls, '__deepcopy__')
+            if dc is not None:
+                # the class defines its own deep copy: run it (python hands it the memo dictionary)
+                n = it.call_function(dc, [x, memo], self_obj=x)
+                memo[x.id] = n
+                return n
         n = AObj(x.cls)
         memo[x.id] = n
         memo[key(x)] = n
